@@ -896,3 +896,46 @@ def r7_4_compaction_cursors(ck, P):
                             ck.incomplete(R, '%s: no store through the output cursor found' % where)
                         else:
                             ck.ok(R, where, '%d stores, all through the output cursor' % n)
+
+
+def r7_5_independent_clamps(ck, P):
+    """T-GRD: clamping a coordinate of one axis never depends on what happened to the other axis"""
+    R = ck.rule('C07-R5', 'a store that clamps an x coordinate (to the region minimum/maximum) is guarded only by range tests of x coordinates, and likewise for y: when a translation overflows in both axes both are clamped', floor=8)
+    for u in units(P):
+        w = _w(u)
+        lim = {(-(1 << 31), 'min'), ((1 << 31) - 1, 'max')} if w == '32' else {(-(1 << 15), 'min'), ((1 << 15) - 1, 'max')}
+        limv = {k for k, _ in lim}
+        for f in u.functions.values():
+            if not f.name.endswith('_translate'):
+                continue
+            ck.saw(f)
+            for x in f.insts():
+                if x.op != 'store' or x.a[0][0] != 'c' or int(x.a[0][1]) not in limv:
+                    continue
+                lf = f.last_field(f.path(x.a[1])) or ''
+                fld = lf.split('.')[-1]
+                if fld not in ('x1', 'x2', 'y1', 'y2'):
+                    continue
+                axis = fld[0]
+                bad = None
+                for t, s_ in f.guard_edges(x.bb.id):
+                    if t.op != 'br' or not t.a:
+                        continue
+                    c, pred, ops = f.cond(t.a[0])
+                    if c is None or c.op != 'icmp' or pred not in ('slt', 'sgt', 'sle', 'sge'):
+                        continue
+                    if not any(o[0] == 'c' and int(o[1]) in limv for o in ops):
+                        continue
+                    # which coordinate is compared: the fields in the value slice of the non-constant operand
+                    flds = set()
+                    for o in ops:
+                        if o[0] == 'v':
+                            flds |= {a[1].split('.')[-1] for a in f.atoms(o) if a[0] == 'field' and a[1].split('.')[-1] in ('x1', 'x2', 'y1', 'y2')}
+                    axes = {q[0] for q in flds}
+                    if axes and axis not in axes:
+                        bad = (t, sorted(flds)); break
+                where = '%s: clamp of %s at %s' % (f.name, lf, x.loc())
+                if bad:
+                    ck.violation(R, f.name, 'clamp of %s depends on the other axis (%s)' % (fld, w), '%s clamps %s only on paths decided by a range test of %s: when both axes overflow one of them keeps its wrapped value and the box is malformed' % (f.name, fld, '/'.join(bad[1])), x.loc())
+                else:
+                    ck.ok(R, where)
